@@ -31,16 +31,24 @@ import (
 // instead of using the MSAT array, in the same way that any other stream works.
 func (r *ComDoc) readShortSAT() error {
 	count := r.SectorSize / 4
-	sat := make([]SecID, count*int(r.Header.SSATSectorCount))
-	position := 0
-	for sector := r.Header.SSATNextSector; sector >= 0; sector = r.SAT[sector] {
-		if position >= len(sat) {
+	// the table grows as sectors are read, not by what the header claims
+	limit := int64(count) * int64(r.Header.SSATSectorCount)
+	var sat []SecID
+	chunk := make([]SecID, count)
+	sector := r.Header.SSATNextSector
+	for sector >= 0 {
+		if int64(len(sat)) >= limit {
 			return errors.New("ssat has more sectors than indicated")
 		}
-		if err := r.readSectorStruct(sector, sat[position:position+count]); err != nil {
+		if err := r.readSectorStruct(sector, chunk); err != nil {
 			return err
 		}
-		position += count
+		sat = append(sat, chunk...)
+		next, err := nextInChain(r.SAT, sector)
+		if err != nil {
+			return err
+		}
+		sector = next
 	}
 	r.SSAT = sat
 	return nil
@@ -85,9 +93,19 @@ func (r *ComDoc) writeShortSAT() error {
 func (r *ComDoc) readShortSector(shortSector SecID, buf []byte) (int, error) {
 	// figure out which big sector holds the short sector
 	bigSectorIndex := int(shortSector) * r.ShortSectorSize / r.SectorSize
+	if shortSector < 0 {
+		return 0, errors.New("sector ID is out of range")
+	}
 	bigSectorID := r.Files[r.rootStorage].NextSector
 	for i := 0; i < bigSectorIndex; i++ {
-		bigSectorID = r.SAT[bigSectorID]
+		next, err := nextInChain(r.SAT, bigSectorID)
+		if err != nil {
+			return 0, err
+		}
+		bigSectorID = next
+	}
+	if bigSectorID < 0 {
+		return 0, errors.New("short sector is beyond the end of the short-sector stream")
 	}
 	// translate to a file position
 	n := r.sectorToOffset(bigSectorID)
